@@ -30,6 +30,17 @@ theorem getters_observe_state (Γ : CustomEnv) (chk : Bool) (B : Base) (fd : Fie
       eval Γ chk { raw := .int B.W t, index := .int .usize i } e = getterResult Γ fd (gather t (offOf i fd.stride) fd.ranges 0) :=
   eval_getterBody Γ chk B fd t i hB hok hwide hi
 
+/-- **a write through any accepted field – a list naming a bit twice included – leaves every position its ranges do not
+    cover exactly as it was** (the "or its initial value if no write covered it" half of C12 needs no disjointness) -/
+theorem write_keeps_uncovered (Γ : CustomEnv) (chk : Bool) (B : Base) (fd : FieldDef) (raw i : Nat) (fv : Val) (v : Nat)
+    (hB : B.WF) (hok : FieldOk B fd) (hwide : fd.totalBits ≤ B.internal) (hraw : raw < 2 ^ B.internal)
+    (hi : ∀ c s, fd.array = some (c, s) → i < c) (harg : ArgOk Γ fd fv v) :
+    ∃ e, setterBody B fd = some e ∧ ∃ x,
+      eval Γ chk { raw := .int B.W raw, index := .int .usize i, fieldValue := fv } e = .ok (.int B.W x) ∧
+      ∀ p, fd.ranges.any (·.covers (offOf i fd.stride) p) = false → x.testBit p = raw.testBit p := by
+  obtain ⟨e, he, x, hev, _, _, _, hout⟩ := eval_setterBody Γ chk B fd raw i fv v hB hok hwide hraw hi harg
+  exact ⟨e, he, x, hev, hout⟩
+
 /-- writes to disjoint position sets commute -/
 theorem disjoint_commute (W init : Nat) (a b : WriteOp) (hinit : init < 2 ^ W)
     (hdis : ∀ p, (written a.v a.off a.rs 0 p).isSome → (written b.v b.off b.rs 0 p) = none) :
